@@ -4,6 +4,7 @@ import (
 	"context"
 	"errors"
 	"fmt"
+	"runtime"
 	"strings"
 	"time"
 
@@ -133,18 +134,21 @@ func c07Shapes(tier string) []c07shape {
 }
 
 type c07obs struct {
-	outcome string // "value:..", "timeout", "error:..", "panic:.."
-	ticks   int64  // clock when EVAL returned
-	trace   []string
-	stamps  []int64
-	hang    bool
+	outcome    string // "value:..", "timeout", "error:..", "panic:.."
+	ticks      int64  // clock when EVAL returned
+	trace      []string
+	stamps     []int64
+	hang       bool
+	allocAfter uint64 // heap bytes allocated between the cancellation instant and EVAL's return (when measured)
 }
 
 type c07rig struct {
-	base       types.EnvType
-	trace      []string
-	stamp      []int64
-	derefWaits int // derefs that reached their wait in this run (observed through the hook)
+	base         types.EnvType
+	trace        []string
+	stamp        []int64
+	derefWaits   int  // derefs that reached their wait in this run (observed through the hook)
+	measureAlloc bool // record the heap bytes allocated after the instant (deep-recursion family)
+	allocAt      uint64
 }
 
 func (rg *c07rig) setup() {
@@ -207,6 +211,14 @@ func (rg *c07rig) run(sh c07shape, mode string, k int64) c07obs {
 	arm := func() {
 		k0 = clk.Ticks()
 		fuel := int64(c07Fuel)
+		rg.allocAt = 0
+		if k > 0 && rg.measureAlloc {
+			clk.At(k0+k, func() {
+				var ms runtime.MemStats
+				runtime.ReadMemStats(&ms)
+				rg.allocAt = ms.TotalAlloc
+			})
+		}
 		if k > 0 {
 			fuel = k + 300
 			switch mode {
@@ -256,6 +268,11 @@ func (rg *c07rig) run(sh c07shape, mode string, k int64) c07obs {
 	}
 	if !sh.future {
 		obs.ticks = clk.Ticks() - k0
+	}
+	if rg.measureAlloc && rg.allocAt > 0 {
+		var ms runtime.MemStats
+		runtime.ReadMemStats(&ms)
+		obs.allocAfter = ms.TotalAlloc - rg.allocAt
 	}
 	cancelRoot()
 	obs.trace, obs.stamps = rg.trace, rg.stamp
@@ -424,11 +441,62 @@ func init() {
 				_ = worst
 			},
 		}
+		// deep non-tail recursion cancelled late: returning the timeout error through thousands of pending
+		// frames must stay cheap. Work after the instant is bounded in evaluator polls (as everywhere) and in
+		// heap bytes allocated between the instant and EVAL's return (a deterministic stand-in for time spent)
+		deepRig := &c07rig{}
+		deepShapes := []c07shape{
+			{name: "deep-non-tail-recursion", text: "(rec 0)"},
+			{name: "deep-non-tail-recursion-in-try", text: "(try (rec 0) (catch e (t! :h) 5))", handler: true, depth: 1},
+			{name: "deep-recursion-through-let-and-do", text: "(do (def rec2 (fn [n] (let [m (+ n 1)] (do (+ 1 (rec2 m)))))) (rec2 0))"},
+		}
+		deepInstants := []int64{3000, 12000, 40000}
+		famDeep := &vf.Family{
+			Name:    "deep-recursion-unwinding",
+			Bounds:  fmt.Sprintf("%d non-tail recursions cancelled / timed out at polls %v (thousands of frames pending): EVAL returns within the poll bound and allocates at most 16 MiB of heap between the instant and its return", len(deepShapes), deepInstants),
+			Setup:   func(t string) { tier = t; deepRig.setup(); deepRig.measureAlloc = true },
+			Timeout: 600 * time.Second,
+			N:       func(string) int64 { return int64(len(deepShapes) * len(deepInstants) * 2) },
+			Describe: func(i int64) string {
+				return fmt.Sprintf("%s at poll %d: %s", []string{"cancel", "deadline"}[i%2], deepInstants[(i/2)%int64(len(deepInstants))], deepShapes[i/2/int64(len(deepInstants))].text)
+			},
+			Run: func(i int64, r *vf.Rec) {
+				mode := []string{"cancel", "deadline"}[i%2]
+				k := deepInstants[(i/2)%int64(len(deepInstants))]
+				sh := deepShapes[i/2/int64(len(deepInstants))]
+				o := deepRig.run(sh, mode, k)
+				r.Exec(1)
+				r.NT()
+				cas := fmt.Sprintf("%s at poll %d: %s", mode, k, sh.text)
+				if strings.HasPrefix(o.outcome, "panic") || o.hang {
+					r.ViolationCase("cancellation of a deep recursion makes EVAL panic or hang", cas, o.outcome)
+					return
+				}
+				if o.ticks < k {
+					r.Outcome("returned before the instant")
+					return
+				}
+				if B := int64(8 + 4*sh.depth); o.ticks-k > B {
+					r.ViolationCase("EVAL keeps running after the cancellation instant (deep recursion)", cas, fmt.Sprintf("returned %d polls after the instant (bound %d)", o.ticks-k, B))
+					return
+				}
+				if o.allocAfter > 16<<20 {
+					r.ViolationCase("returning a timeout through a deep recursion does an amount of work that grows with its depth", cas,
+						fmt.Sprintf("%d bytes of heap allocated between the instant and EVAL's return (bound 16 MiB)", o.allocAfter))
+					return
+				}
+				kib := uint64(64)
+				for kib < o.allocAfter>>10 {
+					kib *= 2
+				}
+				r.Outcome(fmt.Sprintf("returned promptly; heap allocated after the instant <= %d KiB", kib))
+			},
+		}
 		return &vf.Check{
 			ID: "C07", Level: "model_checking",
 			Rule:        "every program shape is run on the real EVAL once uncancelled and then with cancellation / a deadline at every instant k (the k-th context poll; time, timers, sleeps and the 80/20 budget split of try run on a virtual clock through import-rewritten time/context); EVAL must return within B = 8 + 4 x (try depth) polls after the instant, never panic, return a timeout error (or the outcome already determined when the instant falls inside a finally body / after the last poll), produce no effect later than B polls after the instant, under a deadline let the handler of a timed-out body run, and a deadline beyond the program's completion leaves outcome and effects unchanged; every (shape, mode) case is non-trivial",
 			Assumptions: []string{"promptness is counted in evaluator polls, not wall-clock time; a single long Go builtin is outside the model (as the property states)", "future shapes run under the thread scheduler with its default schedule"},
-			Families:    []*vf.Family{fam},
+			Families:    []*vf.Family{fam, famDeep},
 		}
 	})
 }
